@@ -175,6 +175,21 @@ def run(ctx):
                     truth = c[1] == "eq"
                     if recv.body.edge_dominates(g2.edge(truth), sb):
                         sides = [a, b]
+                        # the stored (raw) asset list compared directly: human(asset_infos[i]~Token.contract_addr) == info.sender,
+                        # or asset_infos[i]~Token.contract_addr == canonicalize(info.sender)
+                        SND_ = P_(recv, rinfo, ".sender")
+                        for sa_, sb_ in ((a, b), (b, a)):
+                            if len(sb_) != 1:
+                                continue
+                            o_ = list(sb_)[0]
+                            m_h = re.match(r"^human\((.+)~Token\.contract_addr\)$", o_) if sa_ == {SND_} else \
+                                (re.match(r"^(.+)~Token\.contract_addr$", o_) if sa_ == {"canon(%s)" % SND_} else None)
+                            if m_h:
+                                lp_ = [l for l in common.loops(P, recv) if l["item_root"] == m_h.group(1)]
+                                if lp_:
+                                    ads_, kind_, src_ = common.iter_chain(lp_[0]["iter"])
+                                    if not ads_ and kind_ == "iter" and set(ctx.roots(src_)) == {"load(%s).asset_infos" % ctx.N.PAIR_INFO}:
+                                        inner = (g2, "stored")
                         if {P_(recv, rinfo, ".sender")} in sides:
                             other = sides[1 - sides.index({P_(recv, rinfo, ".sender")})]
                             if len(other) == 1 and re.search(r"\.info~Token\.contract_addr$", list(other)[0]):
@@ -302,6 +317,23 @@ def run(ctx):
             r6.fail("C02.R6:recipient-origin", swap.path, where, "payout recipient ⊢ %s, expected `to` or else the trader (%s)" % (sorted(rec), want_rec))
         else:
             r6.site("payout recipient ⊢ to.unwrap_or(sender)")
+        # the payout may be skipped only for an empty return (a zero-amount transfer is refused by the chain): every other
+        # condition the payout sits under must be one the successful exit sits under as well
+        pay_cs = lemmas.cond_strings(ctx, common.control_conditions(P, swap, cb))
+        ok_cs = None
+        exits_ = common.exit_sites(P, swap)
+        oks_ = [e_ for e_ in exits_ if e_[2] == "ok"] or [e_ for e_ in exits_ if e_[2] != "err"]
+        for (ob, _i, cls_, _v) in oks_:
+            s_ = lemmas.cond_strings(ctx, common.control_conditions(P, swap, ob))
+            ok_cs = s_ if ok_cs is None else (ok_cs & s_)
+        zero_rx = r"(K:0|C:cosmwasm_std::(\S*::)?Uint128::zero@[^|,]*)"
+        for c_ in sorted(pay_cs - (ok_cs or set())):
+            m_z = re.match(r"^is_zero\((.+)\) is \[False\]$", c_) or re.match(r"^lt\(%s, (.+)\)$" % zero_rx, c_)
+            if m_z and amt and m_z.group(m_z.lastindex) == "|".join(sorted(amt)):
+                r6.site("payout skipped only when the priced return is zero")
+            else:
+                r6.fail("C02.R6:payout-gate:%s" % c_[:80], swap.path, where,
+                        "the payout is built only under %s, which the successful exit is not under: a swap can succeed without paying the priced return" % c_)
     # reported attributes
     if pricing_root:
         attrs = {}
